@@ -237,9 +237,10 @@ def attach_scc_subdiagram(
             # This node can be marked as expanded, because we know its successors.
             # We just need to add them in the for loop below.
             main_data = sd.node_data(main_node_id)
-            if not main_data["expanded"]:
+            if not main_data["expanded"] or main_data["skipped"]:
                 # Attractor data computed while the node had no successors
-                # is no longer valid.
+                # (or, for a skip node, only its minimal trap spaces) is no
+                # longer valid.
                 main_data["attractor_seeds"] = None
                 main_data["attractor_candidates"] = None
                 main_data["attractor_sets"] = None
@@ -268,9 +269,10 @@ def attach_scc_subdiagram(
 
     # This makes the `attach_at` node expanded. We will not be adding new nodes to it later.
     attach_data = sd.node_data(attach_at)
-    if not attach_data["expanded"]:
+    if not attach_data["expanded"] or attach_data["skipped"]:
         # Attractor data computed while the node had no successors
-        # is no longer valid.
+        # (or, for a skip node, only its minimal trap spaces) is no
+        # longer valid.
         attach_data["attractor_seeds"] = None
         attach_data["attractor_candidates"] = None
         attach_data["attractor_sets"] = None
